@@ -411,6 +411,19 @@ m("copyloop-drop-typed-null", "TAB-COPYLOOP", ["C20"], "break", PR,
 m("nilmap-eventwriter", "NIL-MAP", ["C20"], "break", EW,
   "\treturn &eventwriter{enc: ion.NewEncoder(w), inStruct: map[int]bool{}}", "\treturn &eventwriter{enc: ion.NewEncoder(w)}", "inStruct", True, "events writer panics on the first struct")
 
+
+m("index-parsetimestamp-no-end-check", "NUM-INDEX", ["C06", "C15"], "break", TS,
+  "\t\tif idx >= len(dateStr) {\n\t\t\t// The string ends after the seconds (or their fraction): the offset is missing.\n\t\t\treturn invalidTimestamp(dateStr)\n\t\t}\n", "", "computeTimezoneKind", True,
+  "the offset is looked for one past the end of the string")
+m("index-sst-findbyid-maxid", "NUM-INDEX", ["C06"], "break", ST,
+  "\tif id <= 0 || id > uint64(len(s.symbols)) {", "\tif id <= 0 || id > s.maxID {", "FindByID", True,
+  "an ID inside a padded import's gap indexes past the symbols")
+m("index-refactor-findbyid-local", "NUM-INDEX", ["C06"], "refactor", ST,
+  "\tif id <= 0 || id > uint64(len(s.symbols)) {", "\tn := uint64(len(s.symbols))\n\tif id <= 0 || id > n {", "", True, "length kept in a local")
+m("slice-roundfrac-no-end-check", "NUM-SLICE", ["C06", "C15"], "break", TS,
+  "\t\tif idx >= len(dateStr) {\n\t\t\t// The string ends after the seconds (or their fraction): the offset is missing.\n\t\t\treturn invalidTimestamp(dateStr)\n\t\t}\n", "\t\tif idx > len(dateStr)+1 {\n\t\t\treturn invalidTimestamp(dateStr)\n\t\t}\n", "roundFractionalSeconds", False,
+  "slice bound past the end of the string")
+
 os.makedirs(os.path.dirname(os.path.abspath(__file__)), exist_ok=True)
 with open(os.path.join(os.path.dirname(os.path.abspath(__file__)), "core.json"), "w") as f:
     json.dump(M, f, indent=1)
